@@ -3,13 +3,15 @@
    overrides in ffinput.FFDirector / gmx.itp_read.ITPDirector).
    Known : the set of section tuples the parser has a method for (exported from the real METH_DICT by the harness:
            the grammar table is data, the rule below is the logic)
+   Fold  : header text as written -> the name it is read as (headers are case-insensitive: the text between the brackets
+           is case-folded before anything else; the table is data exported by the harness for the spellings in Names)
    Reset : TRUE for the directors that restart the stack at a known top-level name (FFDirector, ITPDirector)
    HeaderOp   : the implementation's loop (append, then drop the second-to-last element until known or length 1)
    HeaderDecl : the meaning - the new stack is the longest prefix of the old stack under which the header is a known
                 section, followed by the header; a header known under no prefix stands alone (its lines are errors) *)
 EXTENDS Integers, Sequences, FiniteSets, TLC
 
-CONSTANTS Known, Names, Reset, MaxDepth
+CONSTANTS Known, Names, Reset, MaxDepth, Fold
 
 RemoveAt(s, i) == [j \in 1..(Len(s) - 1) |-> IF j < i THEN s[j] ELSE s[j + 1]]
 
@@ -29,11 +31,14 @@ HeaderDecl(section, h) ==
 VARIABLES section, steps, prev, hdr      \* prev/hdr record the last step so that every dumped state is one (input, output) row
 vars == <<section, steps, prev, hdr>>
 Init == section = <<>> /\ steps = 0 /\ prev = <<>> /\ hdr = ""
-Header(h) == /\ steps < MaxDepth /\ section' = HeaderOp(section, h) /\ steps' = steps + 1
+Header(h) == /\ steps < MaxDepth /\ section' = HeaderOp(section, Fold[h]) /\ steps' = steps + 1
              /\ prev' = section /\ hdr' = h
 Next == \E h \in Names : Header(h)
 Spec == Init /\ [][Next]_vars
 
-OpIsDecl == \A h \in Names : HeaderOp(section, h) = HeaderDecl(section, h)
+OpIsDecl == \A h \in Names : HeaderOp(section, Fold[h]) = HeaderDecl(section, Fold[h])
+\* every section the parser has a method for can be reached: its names are spellings that headers are read as
+KnownReachable == steps >= 0 /\ \A t \in Known : \A i \in DOMAIN t : t[i] \in {Fold[h] : h \in Names}
+FoldedOnly == \A i \in DOMAIN section : section[i] \in {Fold[h] : h \in Names}
 StackIsShort == Len(section) <= 1 \/ section \in Known
 =============================================================================
